@@ -45,6 +45,13 @@ Record hh := {
 Definition all_reachable (s : HNSW.hstate) : bool :=
   let r := reachable0 s in forallb (fun n => memz (n_id n) r) (hs_nodes s).
 
+(** ... and from every other resident vertex: a search leaves the entry point on its way down through the
+    upper layers, and on the bottom layer it only finds what can be reached from where it landed *)
+Definition reachable0_from (s : HNSW.hstate) (u : Z) : list Z :=
+  match hs_nodes s with [] => [] | _ => reach (S (length (hs_nodes s))) s [u] [u] end.
+Definition strongly_connected0 (s : HNSW.hstate) : bool :=
+  forallb (fun u => let r := reachable0_from s (n_id u) in forallb (fun n => memz (n_id n) r) (hs_nodes s)) (hs_nodes s).
+
 Definition hstep (cfg : hcfg) (h : hh) (o : hop) : hh + list Z :=
   let s := hh_model h in
   let mk s' live w t peak found :=
@@ -115,8 +122,13 @@ Definition hstep (cfg : hcfg) (h : hh) (o : hop) : hh + list Z :=
           (* a live vertex that is missed while the graph (identical in model and implementation) has a
              resident vertex unreachable through the bottom layer is the listed finding (nearest-M
              pruning / Flush without reconnecting), seen through the non-emptiness or exactness clause *)
-          let missed v := if sound && negb (all_reachable s) && match hh_div h with None => true | Some _ => false end
-                          then v_known 1 else v in
+          (* ... the second listed finding: every vertex can be reached from the entry point, but not from the
+             vertex the descent lands on (Flush / the purge inside Add drop the edges INTO a vertex with its
+             removed neighbours and reconnect nothing): that vertex -- the entry point itself, typically -- is missed *)
+          let missed v := if sound && match hh_div h with None => true | Some _ => false end
+                          then (if negb (all_reachable s) then v_known 1
+                                else if negb (strongly_connected0 s) then v_known 2 else v)
+                          else v in
           if negb (err =? 0) then inr (verdict false false [hh_i h; 0])
           else match xo_n xo with
                | None => inr (verdict false snd_ok [hh_i h; E_PANIC])
